@@ -70,8 +70,8 @@ func c23Run(c *Ctx) {
 	Go(func() { _ = srv.Serve() })
 	Sleep(time.Millisecond)
 	cl := simstream.NewClient("127.0.0.1:7100", 1+c.W.Draw(2), maxFrame, nil)
-	mode := c.W.Draw(3) // 0 round trips, 1 batch, 2 robustness (raw bytes)
-	c.Note("mode", []string{"roundtrip", "batch", "malformed"}[mode])
+	mode := c.W.Draw(4) // 0 round trips, 1 batch, 2 robustness (raw bytes), 3 concurrent callers on several connections
+	c.Note("mode", []string{"roundtrip", "batch", "malformed", "concurrent"}[mode])
 	c.Note("net", fmt.Sprintf("%+v", cfg))
 	type sent struct {
 		m       proto.Message
@@ -153,8 +153,38 @@ func c23Run(c *Ctx) {
 		}
 	case 2:
 		c23Malformed(c, nw, srv, maxFrame)
+	case 3:
+		// 2-3 callers share the client, so several pooled connections are served by the
+		// server at the same time and their frames come from one frame pool: every caller
+		// must get back exactly the bytes of its own request (same payload size class for
+		// all, so that pooled buffers are interchangeable)
+		ncall := 2 + c.W.Draw(2)
+		size := []int{40, 700, 3000, 20000}[c.W.Draw(4)]
+		var fns []func()
+		for t := 0; t < ncall; t++ {
+			n := 1 + c.W.Draw(4)
+			var mine []sent
+			for i := 0; i < n; i++ {
+				mine = append(mine, sent{m: simstream.GenMessage(c.W.Draw(6), 1000*t+i, strings.Repeat(string(rune('A'+t)), size)+genStr(c, 8))})
+			}
+			fns = append(fns, func() {
+				for i, s := range mine {
+					c.Ops++
+					resp, err := cl.Send(ctxOf(s), s.m)
+					if err != nil {
+						c.Fail("frame-roundtrip-error", "client-concurrent", "caller %d request %d failed on a fault-free connection: %v", t, i, err)
+						return
+					}
+					if !proto.Equal(resp, s.m) {
+						c.Fail("frame-roundtrip-mismatch", "client-response-concurrent", "caller %d request %d (%T): the response is not the echo of its own request (another connection's bytes?)", t, i, s.m)
+						return
+					}
+				}
+			})
+		}
+		Join(fns...)
 	}
-	if mode != 2 && !c.Failed() {
+	if mode < 2 && !c.Failed() {
 		// what the server decoded: same messages, same type names, equal headers, deadline within tolerance, same order
 		if len(srv.Got) != len(all) {
 			c.Fail("frame-count-mismatch", "server", "%d frames sent, server decoded %d", len(all), len(srv.Got))
